@@ -280,6 +280,91 @@ def lexer_traces(chk: core.Check, tier: str, seed: int) -> None:
     common.judge(chk, recs, "lexer", what="Trace: Lexer.run steps (hook) vs LexerDefs!Step", sig=sig)
 
 
+# ------------------------------------------------------------------------------------------
+# part 4: the parser: Parser.tla (implementation-shaped) refines Syntax/Typing (T15), and the real
+# compile() conforms to Parser.tla in outcome, error class and the query it builds
+# ------------------------------------------------------------------------------------------
+def pcompile_record(jp, q: str, env=None, extra=None):
+    from .. import parserconf  # noqa: PLC0415
+
+    rec = {"op": "pcompile", "q": core.enc_text(q), "out": "ok", "kind": "", "ast": []}
+    try:
+        cq = (env or jp).compile(q)
+        rec["ast"] = parserconf.project(cq)
+    except core.Unrepresentable:
+        return None
+    except Exception as err:  # noqa: BLE001
+        rec["out"], rec["kind"] = "raise", parserconf.kind_of(jp, err)
+    if extra:
+        rec.update(extra)
+    return rec
+
+
+def parser_conformance(chk: core.Check, tier: str, seed: int) -> None:
+    """MC + GEN: MC_Parser.tla (T15) over every text of up to n units of five unit families; every exported
+    text is compiled for real and outcome / error class / AST compared with what Parser.tla computed.
+    TRACE: the syntax corpora compiled for real, each outcome / error class / AST validated by TLC against
+    Parser!ImplCompile."""
+    import random  # noqa: PLC0415
+
+    from .. import corpus, gen, parserconf, probes  # noqa: PLC0415
+    from . import common  # noqa: PLC0415
+
+    jp = core.import_repo()
+    gens, runs = parserconf.unit_texts(tier, "mc_parser", deep=True)
+    for label, res in runs:
+        chk.add_tlc(label, res)
+    n_acc = 0
+    for g in gens:
+        q = core.dec_text(g["q"])
+        rec = pcompile_record(jp, q)
+        chk.evaluations += 1
+        chk.nontrivial.add(("unit", q))
+        if rec is None or (not g["ok"] and g["kind"] == "numbig"):
+            continue
+        n_acc += g["ok"]
+        problem = None
+        if g["ok"] != (rec["out"] == "ok"):
+            problem = "outcome differs from Parser.tla"
+        elif not g["ok"] and g["kind"] != rec["kind"] and not (g["kind"] == "lexer" and rec["kind"] == "syntax"):
+            problem = "error class differs from Parser.tla"
+        elif g["ok"] and g["ast"] != rec["ast"]:
+            problem = "the query built differs from Parser.tla"
+        if problem:
+            chk.violation({"clause": "PARSER " + problem, "set": g["set"], "model": g["kind"] or "ok", "code": rec["kind"] or "ok"},
+                          {"query": q, "model": {"ok": g["ok"], "kind": g["kind"], "ast": g["ast"]},
+                           "code": {"out": rec["out"], "kind": rec["kind"], "ast": rec["ast"]}, "rfc": g["rfc"]})
+    chk.notes["parser_unit_texts"] = len(gens)
+    chk.notes["parser_unit_texts_accepted"] = n_acc
+    k = next((i for i, g in enumerate(gens) if g["ok"] and len(g["q"]) > 9), 0)
+    chk.sample({"unit_text": core.dec_text(gens[k]["q"]), "model": "ok" if gens[k]["ok"] else gens[k]["kind"], "rfc": gens[k]["rfc"]})
+    # TRACE
+    rng = random.Random(seed)
+    texts = list(corpus.SEEDS) + corpus.repo_test_queries() + corpus.literal_queries() + corpus.skeletons(rng)
+    texts += corpus.valid_candidates(rng, 500 if tier == "quick" else 15000)
+    for s in list(texts[:400]):
+        texts += gen.neighbours(s, rng, 6 if tier == "quick" else 40)
+    texts = [t for t in dict.fromkeys(texts) if not any(0xD800 <= ord(c) <= 0xDFFF for c in t) and len(t) <= 200]
+    recs = [r for r in (pcompile_record(jp, t) for t in texts) if r is not None]
+    # typed registries: the typing checks of the parser depend on the declared signatures
+    sigs = [("bl", ["L"], "L"), ("vv", ["V"], "V"), ("ll", ["L"], "L"), ("nn", ["N"], "N"), ("vn", ["V", "N"], "L"), ("z", [], "V")]
+    tenv = probes.make_env(jp, sigs, [])
+    extra = {"reg": probes.reg_records(sigs)}
+    typed = corpus.logical_param_skeletons(rng)
+    for f in ("vv", "ll", "nn", "z"):
+        for a in ("@", "@.a", "@.*", "1", "'s'", "(@.a)", "!@", "@ == 1", "vv(@)", "ll(@)", "nn(@)", "z()", "(ll(@))", "@ && @", ""):
+            for ctx in ("$[?{}]", "$[?{} == 1]", "$[?!{}]", "$[?({})]", "$[?@ && {}]", "$[?ll({})]", "$[?vv({}) < 2]", "$[?count({}) == 1]"):
+                typed.append(ctx.format(f"{f}({a})"))
+    recs += [r for r in (pcompile_record(jp, t, env=tenv, extra=extra) for t in dict.fromkeys(typed)) if r is not None]
+    chk.notes["parser_trace_records"] = len(recs)
+
+    def sig(rej, rec):
+        d = rej.get("detail") or []
+        return {"clause": rej["clause"], "model": d[0] if d and rej["clause"].startswith("PARSER o") else None}
+
+    common.judge(chk, recs, "parser", what="Trace: compile() outcome / error class / AST vs Parser!ImplCompile", sig=sig)
+
+
 _run_tokenstream = run
 
 
@@ -287,3 +372,4 @@ def run(chk: core.Check, tier: str, seed: int) -> None:  # noqa: F811
     _run_tokenstream(chk, tier, seed)
     suite_traces(chk)
     lexer_traces(chk, tier, seed)
+    parser_conformance(chk, tier, seed)
